@@ -135,7 +135,7 @@ def run(ctx):
             ctx.violation("never-other-key(spelling)", dict(op="hdk::derive", seed=s.hex(), path=t), ref and hex(ref), r.fields[0].hex())
         elif r.tag in ("panic", "abort", "timeout"):
             ctx.violation("derive:abnormal", dict(op="hdk::derive", seed=s.hex(), path=t), "result or error", str(r)[:200])
-    neg = ["m/2147483648'", "m/2147483692'/60'/0'/0/0", "m/4294967295'", "m/44'/2147483708'/0'/0/0", "m/0/2147483648", "m/4294967296'", "m/-0", "m/-0'", "m/-00", "m/44'/60'/0'/0/-0", "m/44'/60'/-0'/0/0", "m/-000000000000", "m/0/-0/0"]
+    neg = ["m/44'/60'/0'x/0/0", "m/44'/60'/0''/0/0", "m/44'1/60'/0'/0/0", "m/0'0", "m/0' ", "m/0'/1'2", "m/'0", "m/0'h", "m/0h", "m/0H", "m/2147483648'", "m/2147483692'/60'/0'/0/0", "m/4294967295'", "m/44'/2147483708'/0'/0/0", "m/0/2147483648", "m/4294967296'", "m/-0", "m/-0'", "m/-00", "m/44'/60'/0'/0/-0", "m/44'/60'/-0'/0/0", "m/-000000000000", "m/0/-0/0"]
     for t, r in zip(neg, ctx.harness([("derive", seeds[3], t) for t in neg])):
         ctx.count("negative-zero-component")
         ctx.distinct(("negzero", t))
